@@ -42,7 +42,10 @@ RULE = ('cases: (encoding in utf-8/utf-16/utf-32/latin-1, list of strings, byte-
 TRUSTED = ['modelled not verified: CPython 3.12 C codecs (utf_8/utf_16/utf_32/latin_1 encode and stateful decode), '
            'Lib/encodings/utf_16.py and utf_32.py (BOM handling of the incremental classes), '
            'codecs.BufferedIncrementalDecoder (carry-over buffer), RxPY Subject synchronous delivery',
-           'little-endian host (sys.byteorder == "little"): the incremental utf-16/utf-32 encoders write native order']
+           'little-endian host (sys.byteorder == "little"): the incremental utf-16/utf-32 encoders write native order',
+           'harness: the hand-driven re-subscribable source (rx.create) used for the re-subscription cases; files: '
+           'rxsci/io/file.py read(size=64 KiB, mode=rb) delivers the blocks the decode stage is run on; the JSON '
+           'layer (orjson/json dumps+loads, line.unframe) is exercised by the read-back oracle, not modelled']
 ASSUMPTIONS = ['theorems: every string is a list of Unicode scalar values (latin-1: code points < 256) and the chunks '
                'concatenate to exactly the encoder output; malformed input is covered by the correspondence only',
                'incremental=True (the default, and what rxsci/container/json.py uses)']
